@@ -449,3 +449,22 @@ M("c19_first_read_decides", ["C19"],
    "        data = sock.recv(1024)\n        for response in proxy_parser.feed(data):\n            break"))
 M("c19_wss_not_wrapped_after_tunnel", ["C19"],
   ("lomond/session.py", "            self._wrap_socket(sock, self.websocket.host)\n            if self.websocket.is_secure else", "            self._wrap_socket(sock, self.websocket.host)\n            if False else"))
+
+# ---- C18 -----------------------------------------------------------------
+_NO_SHORTCUT = ("lomond/selectors.py", "        if hasattr(self._socket, 'pending') and self._socket.pending():\n            return True, self._socket.pending()\n", "")
+_SMALL_BUFFER = ("lomond/session.py", "    BUFFER_SIZE = 64 * 1024", "    BUFFER_SIZE = 4 * 1024")
+M("c18_no_pending_shortcut", ["C18"], _NO_SHORTCUT,
+  equivalent=True)  # with a 64 KiB read a whole TLS record is always consumed, pending() stays 0
+M("c18_small_buffer", ["C18"], _SMALL_BUFFER,
+  equivalent=True)  # smaller reads, but the pending() short-cut keeps draining the TLS layer
+M("c18_small_buffer_and_no_shortcut", ["C18"], _NO_SHORTCUT, _SMALL_BUFFER)   # two sites that each look fine alone
+M("c18_pending_returns_max_bytes", ["C18"],
+  ("lomond/selectors.py", "            return True, self._socket.pending()", "            return True, max_bytes"),
+  equivalent=True)  # reading up to max_bytes from the TLS layer returns the buffered record just the same
+M("c18_selector_byte_count_ignored", ["C18"],
+  ("lomond/session.py", "                    data = self._recv(max_bytes)", "                    data = self._recv(4096)"),
+  equivalent=True)  # smaller reads, but the loop keeps reading while data is readable or pending
+M("c18_small_reads_pending_after_wait", ["C18"],
+  ("lomond/session.py", "                    data = self._recv(max_bytes)", "                    data = self._recv(4096)"),
+  ("lomond/selectors.py", "        if hasattr(self._socket, 'pending') and self._socket.pending():\n            return True, self._socket.pending()\n        readable = self.wait_readable(timeout=timeout)\n        return readable, max_bytes",
+   "        readable = self.wait_readable(timeout=timeout)\n        if not readable and hasattr(self._socket, 'pending') and self._socket.pending():\n            return True, self._socket.pending()\n        return readable, max_bytes"))
